@@ -284,12 +284,16 @@ class SynTx(Tx):
     def find_defs(self, node, attr: str, start: str):
         """first class along the linearisation of `start` that defines `attr` as a function -> (class, [FunctionDef]);
         (None, []) when no class of the translated files defines it"""
+        external = None
         for c in self.mro(start):
             if c not in self.CLASSES:
-                continue                      # defined elsewhere (`InfernoSynapse`): after every mixin in these hierarchies
+                external = external or c      # defined elsewhere (`InfernoSynapse`): may define anything
+                continue
             body = self.CLASSES[c][0].body
             defs = [f for f in body if isinstance(f, ast.FunctionDef) and f.name == attr]
             if defs:
+                if external is not None:
+                    self.err(node, f"{attr}: class {external} (not translated) precedes {c} in the linearisation of {start}")
                 return c, defs
             if any(isinstance(t, ast.Name) and t.id == attr for s in body if isinstance(s, (ast.Assign, ast.AnnAssign))
                    for t in (s.targets if isinstance(s, ast.Assign) else [s.target])):
